@@ -257,6 +257,41 @@ theorem included_service_survives_parent {envI envP : Env} (hx : Extends envI en
   rw [← included_branch_eq_own_except_configs envI dict (by decide), included_branch_services]
   exact resolvedSection_stable (resolveService_stable hx hn) _
 
+/-! ## nested includes compose -/
+
+theorem extends_refl (env : Env) : Extends env env := fun _ _ h => h
+
+theorem extends_trans {a b c : Env} (hab : Extends a b) (hbc : Extends b c) : Extends a c :=
+  fun k v h => hab k v (hbc k v h)
+
+/-- **included_secret_survives_nested**: a model included at depth 2 (environment `env2`, which extends the depth-1
+include's `env1`, which extends the root's `env0`) is resolved again by the depth-1 model — itself an included model —
+and by the root: its secrets are still the ones of the project loaded on its own -/
+theorem included_secret_survives_nested {env2 env1 env0 : Env} (h21 : Extends env2 env1) (h10 : Extends env1 env0)
+    (dict : KVs) :
+    resolvedSection (resolveSource secretCarrier env0)
+        (resolvedSection (resolveSource secretCarrier env1) (lookup "secrets" (resolveModelEnv true env2 dict))) =
+      lookup "secrets" (resolveModelEnv false env2 dict) := by
+  rw [included_secret_survives_parent h21, ← included_branch_eq_own_except_configs env2 dict (by decide),
+    included_branch_secrets]
+  exact resolvedSection_stable (resolveSource_stable (by decide) (extends_trans h21 h10)) _
+
+/-- likewise `services.*.environment` -/
+theorem included_service_survives_nested {env2 env1 env0 : Env} (h21 : Extends env2 env1) (h10 : Extends env1 env0)
+    (hn1 : NoEqNames env1) (hn0 : NoEqNames env0) (dict : KVs) :
+    resolvedSection (resolveService env0)
+        (resolvedSection (resolveService env1) (lookup "services" (resolveModelEnv true env2 dict))) =
+      lookup "services" (resolveModelEnv false env2 dict) := by
+  rw [included_service_survives_parent h21 hn1, ← included_branch_eq_own_except_configs env2 dict (by decide),
+    included_branch_services]
+  exact resolvedSection_stable (resolveService_stable (extends_trans h21 h10) hn0) _
+
+/-- a config declared at depth 2 is resolved by the root only: with the root's environment -/
+theorem included_config_nested_untouched (env2 env1 : Env) (dict : KVs) (rest : KVs)
+    (h : lookup "configs" rest = lookup "configs" (resolveModelEnv true env2 dict)) :
+    lookup "configs" (resolveModelEnv true env1 rest) = lookup "configs" dict := by
+  rw [included_branch_configs_untouched, h, included_branch_configs_untouched]
+
 /-! ## configs -/
 
 /-- the full statement for configs: resolved by the including model = as loaded on its own.  **False** in general
